@@ -363,7 +363,8 @@ Inductive vcase :=
 | CPbEnc (v : pbval) (out : bytes)
 | CAnyBytes (dst : N) (d : bytes) (ok1 ok2 : bool) (o : pbval)
 | CDotRt (msgs : list bspec) (stream : bspec) (panicked : bool) (got : list bspec) (clean : bool)
-| CDotRecv (s : bytes) (got : list bytes) (clean : bool).
+| CDotRecv (s : bytes) (got : list bytes) (clean : bool)
+| CTrimNA (n s : name) (ok : bool) (pre : name).
 
 Definition chk (c : vcase) : bool :=
   match c with
@@ -386,4 +387,7 @@ Definition chk (c : vcase) : bool :=
   | CAnyBytes dst d ok1 ok2 o => chk_anypb_bytes dst d ok1 ok2 o
   | CDotRt ms st pn got cl => chk_dot_rt ms st pn got cl
   | CDotRecv s got cl => chk_dot_recv s got cl
+  (* labels with non-ASCII bytes: bytes.ToLower is UTF-8 aware there; if the ASCII model matches, Go matches with the
+     same prefix; if it does not, Go may still match (e.g. two invalid bytes both become U+FFFD): unconstrained *)
+  | CTrimNA n s ok pre => match trim_suffix n s with Some p => ok && name_eqb pre p | None => true end
   end.
